@@ -303,6 +303,9 @@ struct SessionsModel : Monitor {
 			if (!ok) {
 				char b[240]; snprintf(b, sizeof b, "tunnel answer for uid %d sent to %s which is not an authorised session (bound %s)", u.userid, d.dst.str().c_str(), it != slot.end() ? it->second.bound.str().c_str() : "-");
 				w->S.violate("C03", "effect.data_answer", b);
+				// ... and when the answer carries tunnel data, a packet for the session's tunnel address has gone to an address that
+				// is not the session's (e.g. to the previous owner of a re-used slot, on a query the server still held for it)
+				if (pl.size() > 2 && !no_check_ip) { snprintf(b, sizeof b, "downstream data of session %d (%zu bytes) sent to %s, but that session is bound to %s", u.userid, pl.size() - 2, d.dst.str().c_str(), it != slot.end() ? it->second.bound.str().c_str() : "-"); w->S.violate("C04", "routing.wrong_address", b); }
 				return;
 			}
 			SlotModel &sm = it->second;
